@@ -39,6 +39,11 @@ META = {
              text="On success dest, returned pointer/count must equal the reference result; a result that does not fit must not be "
                   "reported as success.",
              note=FENCE_NOTE),
+ "C07": dict(technique="runtime monitoring: every relative placement of src and dest inside one guarded arena, zone oracle from the pre-call image",
+             text="For the 22 copy/concatenate/move exports, every offset of src relative to dest in [-(dmax+slen), +(dmax+slen)] for all small "
+                  "dmax/slen/source lengths (and sizes across 0x20): disjoint operands must behave normally, written-meets-read must fail "
+                  "with dest cleared, objects-overlap-only may do either, memmove family must equal a copy through a temporary; no fence event.",
+             note=FENCE_NOTE),
  "C08": dict(technique="runtime monitoring: slack scan behind the reference-computed terminator after success",
              text="Default build: dest[len..dmax) all zero after success of the slack-nulling functions, len from the reference model; "
                   "no-slack build: terminator present.",
